@@ -388,9 +388,13 @@ class IndentationFitter(object):
         model_key = self.fp["model_key"]
         # work on a copy (do not modify the stored initial parameters)
         params_initial = copy.deepcopy(self.fp["params_initial"])
-        # modify contact point with gcf_k
-        cpi = params_initial["contact_point"].value
-        params_initial["contact_point"].set(value=cpi * self.fp["gcf_k"])
+        # modify contact point with gcf_k (its limits are given in the
+        # same units as its value; limits first, so that the value is
+        # not clipped to the uncorrected limits)
+        cpi = params_initial["contact_point"]
+        cpi.set(min=cpi.min * self.fp["gcf_k"],
+                max=cpi.max * self.fp["gcf_k"])
+        cpi.set(value=cpi.value * self.fp["gcf_k"])
         weight_cp = self.fp["weight_cp"]
 
         # boolean array indexing the segment
@@ -431,8 +435,11 @@ class IndentationFitter(object):
             # residuals
             fit_res[segid] = md.residual(fit.params, xseg, yseg, weight_cp)
             # inverse contact point correction with gcf_k
-            cpf = fit.params["contact_point"].value
-            fit.params["contact_point"].set(value=cpf / self.fp["gcf_k"])
+            cpf = fit.params["contact_point"]
+            cpv = cpf.value / self.fp["gcf_k"]
+            cp0 = self.fp["params_initial"]["contact_point"]
+            cpf.set(min=cp0.min, max=cp0.max)
+            cpf.set(value=cpv)
             # add fit results to fp dictionary
             self.fp.update({"params_fitted": fit.params,
                             "chi_sqr": fit.chisqr,
